@@ -302,8 +302,11 @@ class Broker(object):
         self.send(ch, spec.Basic.CancelOk(consumer_tag=tag))
 
     def broker_cancel(self, ch, tag):
-        if tag in self.consumers.get(ch, []):
-            self.consumers[ch].remove(tag)
+        # a broker cancels consumers it has: once the application's own Basic.Cancel for the tag
+        # has been answered there is nothing left to notify about
+        if tag not in self.consumers.get(ch, []):
+            return
+        self.consumers[ch].remove(tag)
         self.send(ch, spec.Basic.Cancel(consumer_tag=tag, nowait=True))
 
     def h_Basic_Get(self, ch, fr):
